@@ -335,14 +335,17 @@ class _Seam:
 
             self.saved.append((pyrandom, name, orig))
             setattr(pyrandom, name, wrapper)
-        orig_next = dr.XorShift.next
+        # the raw deterministic generator: whatever class the module-level generator object has
+        gen_cls = type(getattr(dr, "_rng", None))
+        if hasattr(gen_cls, "next") and gen_cls.__module__ == dr.__name__:
+            orig_next = gen_cls.next
 
-        def next_(xs):
-            self._count()
-            return orig_next(xs)
+            def next_(xs):
+                self._count()
+                return orig_next(xs)
 
-        self.saved.append((dr.XorShift, "next", orig_next))
-        dr.XorShift.next = next_
+            self.saved.append((gen_cls, "next", orig_next))
+            gen_cls.next = next_
 
     def restore(self):
         for obj, name, orig in reversed(self.saved):
@@ -371,8 +374,7 @@ def run(sc) -> RunResult:
     )
     tag = f"{h}x{w} num[{sc['min_num']},{sc['max_num']}] size[{sc['min_size']},{sc['max_size']}] allow_unmet={sc['allow_unmet']}"
     saved_state = pyrandom.getstate()
-    saved_switch = srandom._use_deterministic_prng
-    saved_rng = dr._rng
+    saved_modules = (core.snapshot_module_state(srandom), core.snapshot_module_state(dr))
     seam = _Seam(res)
     try:
         pyrandom.seed(sc["rand_seed"])
@@ -512,8 +514,8 @@ def run(sc) -> RunResult:
     finally:
         seam.restore()
         pyrandom.setstate(saved_state)
-        srandom._use_deterministic_prng = saved_switch
-        dr._rng = saved_rng
+        core.restore_module_state(srandom, saved_modules[0])
+        core.restore_module_state(dr, saved_modules[1])
     return res
 
 
